@@ -218,16 +218,12 @@ def judge (f out : List String) : Verdict :=
     -- the known finding is tagged only when the reply is exactly what it predicts: every record as the record states it,
     -- except that of a repeated qualifier key the last value is kept (`toSequenceM`); anything else is a plain FAIL
     let lastWins := serOutcome (.ok (c.recs.map toSequenceM))
-    -- likewise C01-source-without-organism: some record's SOURCE block is written without its ORGANISM line and the reply
-    -- is exactly the prediction `toSequenceOrg` (the text of the next keyword block as the organism, all else as stated)
-    let orgPred := serOutcome (.ok (pairs.map fun p => toSequenceOrg p.1 p.2))
-    let kf := if pairs.any (fun p => orgOmitted p.1 p.2) && outN == orgPred then " kf:C01-source-without-organism"
-      else if c.recs.any repeatedQualKey && outN == lastWins then " kf:C01-repeated-qualifier-key" else ""
+    let kf := if c.recs.any repeatedQualKey && outN == lastWins then " kf:C01-repeated-qualifier-key" else ""
     let triv := if nfeat == 0 && c.recs.all (fun r => r.refs.isEmpty) then "triv:" else ""
     let cls := triv ++ c.mode ++ "/r" ++ toString c.recs.length
       ++ (if c.lay.finalNewline then "/nl" else "/nonl")
       ++ (if nfeat == 0 then "/f0" else if nfeat ≤ 5 then "/f1-5" else "/f6+")
-      ++ (if multiloc then "/multiloc" else "") ++ kf
+      ++ (if multiloc then "/multiloc" else "") ++ (if pairs.any (fun p => orgOmitted p.1 p.2) then "/noorg" else "") ++ kf
     { corr := outN == m, judge := if inDom then some (outN == expected) else none, cls := cls
       detail := if outN == m && outN == expected then "" else
         "model: " ++ lineOf (m.map fun x => if x.length > 300 then (x.take 300).toString ++ "…" else x) ++ "  expected: "
